@@ -597,6 +597,95 @@ func init() {
 		Explanation: "Decides the structural clause 'the codec tables are complete and symmetric': every expr.Expr implementation registered once with a unique msgpack extension id; goexpr types constructible from SQL registered; every field read by an expression's behavioural methods restored on decode (exported/default-coded or assigned in DecodeMsgpack, function-valued fields from the constructor's registry); custom encoder/decoder operand sequences equal; all message structs crossing SendMsg/RecvMsg fully exported (FlatRow.fields restored by the receiver).",
 		NotDecided:  []string{"byte-level fidelity of msgpack, snappy and gRPC", "float formatting / NaN payloads", "value equality of decoded expressions on data (needs execution)"},
 		Assumptions: []string{"msgpack v3.1.4: structs are encoded as maps of exported and embedded fields; types with EncodeMsgpack/DecodeMsgpack use those; RegisterExt ids select the decoded type"},
-		Rules:       []func(*Ctx){ruleC20a, ruleC20b, ruleC20c, ruleC20d},
+		Rules:       []func(*Ctx){ruleC20a, ruleC20b, ruleC20c, ruleC20d, ruleC20e},
 	})
+}
+
+// ruleC20e: wire-representation stability of message structs and the insert
+// batch protocol.
+func ruleC20e(c *Ctx) {
+	const rule = "C20.e"
+	c.describe(rule, "reg/dom: message structs carry no msgpack struct tags (omitempty, '-', renames change what the receiver sees — e.g. an empty-but-non-nil row key must stay distinguishable from nil); in (*server).Insert every iteration of the receive loop that continues with the next message has first passed the stream-name latch (only the first message of a batch names the stream)")
+	// struct tags
+	n := 0
+	seen := map[string]bool{}
+	var visit func(t types.Type)
+	visit = func(t types.Type) {
+		switch x := t.(type) {
+		case *types.Pointer:
+			visit(x.Elem())
+		case *types.Slice:
+			visit(x.Elem())
+		case *types.Map:
+			visit(x.Elem())
+		case *types.Named:
+			if x.Obj().Pkg() == nil || !strings.HasPrefix(x.Obj().Pkg().Path(), modPath) {
+				return
+			}
+			k := typeStr(x)
+			if seen[k] {
+				return
+			}
+			seen[k] = true
+			st, ok := x.Underlying().(*types.Struct)
+			if !ok {
+				return
+			}
+			n++
+			var bad []string
+			for i := 0; i < st.NumFields(); i++ {
+				tag := st.Tag(i)
+				if strings.Contains(tag, "msgpack:") {
+					bad = append(bad, st.Field(i).Name()+" `"+tag+"`")
+				}
+				visit(st.Field(i).Type())
+			}
+			c.check(rule, "message struct "+k+" has no msgpack tags", x.Obj().Pos(), len(bad) == 0, "default field encoding", "msgpack struct tags change the wire representation: "+strings.Join(bad, ", ")+" — receivers discriminate messages by nil-ness/presence of fields (e.g. queryCluster treats a row with key == nil as the partition's final message)")
+		}
+	}
+	for _, name := range []string{"Insert", "InsertReport", "Query", "Point", "SourceInfo", "RemoteQueryResult", "RegisterQueryHandler"} {
+		if t := c.P.Named("z/rpc", name); t != nil {
+			visit(t)
+		}
+	}
+	for _, name := range []string{"Follow", "QueryMetaData", "QueryStats"} {
+		if t := c.P.Named("z/common", name); t != nil {
+			visit(t)
+		}
+	}
+	c.floor(rule, "message structs checked for tags", n, 10)
+	// insert protocol
+	ins := c.need(rule, "(*z/rpc/server.server).Insert")
+	if ins == nil {
+		return
+	}
+	var latch *ssa.If
+	for _, ci := range findIfs(ins, func(v ssa.Value) bool {
+		b, ok := v.(*ssa.BinOp)
+		if !ok || (b.Op != token.EQL && b.Op != token.NEQ) {
+			return false
+		}
+		s, isC := constString(b.Y)
+		_, isPhi := b.X.(*ssa.Phi)
+		return isC && s == "" && isPhi
+	}) {
+		latch = ci.i
+	}
+	if latch == nil {
+		c.undecided(rule, "Insert: stream-name latch", ins.Pos(), "no test of the latched stream name against \"\" found")
+		return
+	}
+	ok := true
+	nBack := 0
+	for _, l := range loopsOf(ins) {
+		for _, p := range l.header.Preds {
+			if l.body[p] {
+				nBack++
+				if !latch.Block().Dominates(p) {
+					ok = false
+				}
+			}
+		}
+	}
+	c.check(rule, "Insert: every continued iteration has latched the stream name", latch.Pos(), ok && nBack > 0, "the latch dominates all "+itoa(nBack)+" back edges of the receive loop", "the receive loop can continue with the next message without having latched the batch's stream name from the first message: if the first point of a batch is rejected, the stream name is lost and the rest of the batch fails")
 }
